@@ -22,10 +22,17 @@ def write_if_changed(name, text):
     except FileNotFoundError:
         old = None
     if old != text:
-        with open(p, 'w') as f:
-            f.write(text)
+        atomic_write(p, text)
         return True
     return False
+
+
+def atomic_write(path, text):
+    """write via a temporary file and rename: a concurrently running check never sees a half-written Lean file"""
+    tmp = '%s.%d.tmp' % (path, os.getpid())
+    with open(tmp, 'w') as f:
+        f.write(text)
+    os.replace(tmp, path)
 
 
 def find_class(mod, name):
